@@ -390,6 +390,7 @@ class Emitter:
         s.emitted = set()
         s.boundary_set = set()
         s.loop_macros = []
+        s.loop_locals = collections.OrderedDict()
         s.fsrc = {}
         s.floops = {}
         s.atomic_sites = []
@@ -670,6 +671,7 @@ class FnEmit:
         for a, t in allocas.items():
             if uses[a] == direct[a]:
                 s.promoted[a] = t
+        allocas_all = set(ins['dst'] for bn, insts in blocks.items() for ins in insts if ins['op'] == 'alloca')
         # emit
         names = []
         for i, (t, pn, info) in enumerate(f.params):
@@ -707,6 +709,39 @@ class FnEmit:
                 s.emit_inst(ins, bn)
             for _ in range(closes.get(bn, 0)):
                 s.body.append('}'); s.loop_stack.pop()
+        # per loop: the locals assigned inside it (for loop-contract assigns clauses)
+        for h, (last, k) in s.loops.items():
+            body_blocks = s.loop_body[h]
+            loc = collections.OrderedDict()
+            def mark_addr(v):
+                if isinstance(v, V):
+                    if v.k == 'local' and v.name in allocas_all:
+                        if v.name in s.promoted: loc[s.lname(v.name)] = True
+                        else: loc[s.lname(v.name) + '__mem'] = True
+                    elif v.k == 'cast': mark_addr(v.x)
+                    elif v.k == 'gep': mark_addr(v.base)
+            for bn in body_blocks:
+                for ins in blocks[bn]:
+                    if ins['dst'] is not None and ins['op'] not in ('alloca',) and s.lname(ins['dst']) in s.decls:
+                        loc[s.lname(ins['dst'])] = True
+                        if (s.lname(ins['dst']) + '__phi') in s.decls: loc[s.lname(ins['dst']) + '__phi'] = True
+                    for key, val in ins.items():
+                        if key in ('op', 'dst', 'ty', 'dbg'): continue
+                        if ins['op'] == 'load' and key == 'ptr': continue
+                        if isinstance(val, V): mark_addr(val)
+                        elif isinstance(val, list):
+                            for x in val:
+                                if isinstance(x, V): mark_addr(x)
+                                elif isinstance(x, tuple):
+                                    for y in x:
+                                        if isinstance(y, V): mark_addr(y)
+            # phi destinations assigned on edges leaving from body blocks
+            for (pred, bn), ph in s.phis.items():
+                if pred in body_blocks:
+                    for d, v in ph:
+                        loc[s.lname(d)] = True
+                        if (s.lname(d) + '__phi') in s.decls: loc[s.lname(d) + '__phi'] = True
+            em.loop_locals['CV_LOOP_LOCALS_%s_%d' % (san(f.name), k)] = list(loc) or ['cv_exc_pending']
         lines = [head, '{']
         for n, t in s.decls.items():
             lines.append('  %s;' % em.ctype(t, n))
@@ -1151,6 +1186,7 @@ def translate(ll_path, roots_rx, boundary_rx, out_prefix, names=None, no_names=F
     else:
         em.di = None
     bnd = set(n for n in m.funcs if any(re.search(b, dm[n]) for b in boundary_rx))
+    bnd |= {'__clang_call_terminate'} & set(m.funcs)        # supplied by lib/rt_core.c
     em.boundary_set = bnd
     em.boundary = []
     for al, g in (gnames or {}).items():
@@ -1256,8 +1292,18 @@ def translate(ll_path, roots_rx, boundary_rx, out_prefix, names=None, no_names=F
     for al, g in (gnames or {}).items():
         decl.append('#define %s (&G_%s)' % (al, san(g)))
     body = []
+    inv_alias = {san(v): k for k, v in alias.items()}
     for ln in em.loop_macros:
-        body.append('#ifndef %s\n#define %s\n#endif' % (ln, ln))
+        mo = re.fullmatch(r'CV_LOOP_(.*)_(\d+)', ln)
+        if mo and mo.group(1) in inv_alias:
+            an = 'CV_LOOP_%s_%s' % (inv_alias[mo.group(1)], mo.group(2))
+            decl.append('#define CV_LOOP_LOCALS_%s_%s CV_LOOP_LOCALS_%s_%s' % (inv_alias[mo.group(1)], mo.group(2), mo.group(1), mo.group(2)))
+            decl.append('#define %s %s' % (ln, an))
+            body.append('#ifndef %s\n#define %s\n#endif' % (an, an))
+        else:
+            body.append('#ifndef %s\n#define %s\n#endif' % (ln, ln))
+    for k_, v_ in em.loop_locals.items():
+        body.append('#define %s %s' % (k_, ', '.join(v_)))
     body += globs
     body.append(em.exc_match_fn())
     for fnm, cn in em.intr.items():
